@@ -136,7 +136,12 @@ def run_batch(mod, seed, tier, nruns, nproc, wall_per_run=120, budget_s=None):
         except FileNotFoundError:
             errors.append('worker produced no output')
         if p.exitcode != 0:
-            errors.append('worker died with exit code %s in run %s' % (p.exitcode, started))
+            if started is not None and p.exitcode < 0:
+                # the interpreter itself died (e.g. SIGSEGV inside a native library fed corrupt data by the
+                # code under test): classified below by re-running that one plan in isolation
+                records[started] = {'i': started, 'died': -p.exitcode}
+            else:
+                errors.append('worker died with exit code %s in run %s' % (p.exitcode, started))
         try:
             os.remove(path)
         except OSError:
@@ -215,6 +220,8 @@ def replay_in_fresh_interpreter(prop, path):
         out = subprocess.run(cmd, capture_output=True, text=True, timeout=600, env=env)
     except subprocess.TimeoutExpired:
         return None
+    if out.returncode < 0:
+        return {'interpreter-died|signal-%d' % -out.returncode}
     for line in out.stdout.splitlines():
         if line.startswith('REPLAY-JSON '):
             return set(json.loads(line[len('REPLAY-JSON '):])['signatures'])
@@ -247,10 +254,14 @@ def check(mod, tier, seed):
     by_sig = {}
     samples = []
     excerpt = None
+    died = []
     for i in sorted(records):
         rec = records[i]
         if rec.get('skipped'):
             skipped += 1
+            continue
+        if rec.get('died'):
+            died.append((i, rec['died']))
             continue
         if 'res' not in rec:
             continue
@@ -314,6 +325,24 @@ def check(mod, tier, seed):
                                'occurrences': len(by_sig[sig])})
         exit_code = 1
 
+    for i, sig_no in died[:3]:
+        # a run during which the interpreter died: reproduce it alone in a fresh interpreter
+        plan = mod.gen_plan(seed, tier, i)
+        sig = 'interpreter-died|signal-%d' % sig_no
+        v = kernel.Violation(mod.PROP, 'crash', sig, 'the interpreter died with signal %d while executing run %d' % (sig_no, i))
+        path = write_replay(mod.PROP, plan, v, seed, note='unminimised plan of run %d (the process died, no minimisation)' % i)
+        got = replay_in_fresh_interpreter(mod.PROP, path)
+        if any(x['signature'] == sig for x in violations_out):
+            os.remove(path)
+            continue
+        if got and sig in got:
+            print('VIOLATION property=%s replay=%s' % (mod.PROP, path))
+            print('  signature=%s occurrences=%d message=%s' % (sig, len(died), v.message))
+            violations_out.append({'signature': sig, 'replay': path, 'message': v.message, 'occurrences': len(died)})
+            exit_code = 1
+        else:
+            os.remove(path)
+            errors.append('worker died with signal %d in run %d and the death does not reproduce in isolation' % (sig_no, i))
     missing = [p for p in mod.REQUIRED_PROBES if probes.get(p, 0) == 0]
     if missing and exit_code == 0:
         errors.append('probes stuck at zero (workload drifted into trivial territory): %s' % missing)
